@@ -92,6 +92,21 @@ mutual
     | _ :: _ => none
 end
 
+mutual
+  /-- no `Any` in the type expression (what `Any` passes through is not stable under JSON:
+      a tuple comes back as a list) -/
+  def jsonSafe : Ty → Bool
+    | .any => false
+    | .union cases _ => jsonSafeAll cases
+    | .iter _ _ e => jsonSafe e
+    | .tuple es => jsonSafeAll es
+    | .dict k v => jsonSafe k && jsonSafe v
+    | _ => true
+  def jsonSafeAll : List Ty → Bool
+    | [] => true
+    | t :: ts => jsonSafe t && jsonSafeAll ts
+end
+
 /-- how the dumped value reaches the loader: directly (`j = false`) or through JSON -/
 def Trav (j : Bool) (d d' : Val) : Prop :=
   if j then jsonTravel d = some d' else d' = d
